@@ -63,6 +63,25 @@ def server_wiring_rule(ck, P):
         used = bool(asg) and bool(serve) and ir.contains(serve[0], lambda z: z.get("k") == "path" and z.get("r") == "local" and z.get("hid") == ir.local_hid(asg[0]["l"]))
         ck.check(c == {1} and used, "R-WIRING", b["q"] + "|" + nm, "start() mounts %s on the router it serves, on every path" % nm.replace("add_", "").replace("_to_app", ""),
                  "start() does not mount the routes of %s on the served router (calls per start: %s)" % (nm, sorted(c)), ir.loc(b))
+    # the serve tool: every tile source argument is added (one add_tile_source per loop round over the arguments) and the server is started
+    rn = [x for x in P.bodies if x["q"].endswith("tools::serve::run")]
+    if ck.anchor("R-WIRING", "serve::run", rn, 1):
+        rb = ir.fn_block(rn[0])
+        # #[tokio::main] wraps the body in an async block handed to the runtime: analyse that block
+        inner = [c for c in ir.walk_nodes(rb) if c.get("k") == "closure" and ir.contains(c["body"], lambda y: y.get("k") == "mcall" and (ir.callee(y) or "").endswith("TileServer::start"))]
+        if inner:
+            rb = inner[-1]["body"]
+        c_start = mvt.exit_counts(P, {"body": rb}, lambda y: 1 if (y.get("k") == "mcall" and (ir.callee(y) or "").endswith("TileServer::start")) else None)
+        lps = [n for n in ir.walk_nodes(rb) if n.get("k") == "for" and ir.contains(n["body"], lambda y: y.get("k") == "mcall" and (ir.callee(y) or "").endswith("TileServer::add_tile_source"))]
+        okr = False
+        if len(lps) == 1:
+            over_args = "tile_sources" in ir.place_str(lps[0]["iter"]) or any(z.get("k") == "field" and z.get("name") == "tile_sources" for z in ir.walk_nodes(lps[0]["iter"]))
+            adapt = [y["name"] for y in ir.walk_nodes(lps[0]["iter"]) if y.get("k") == "mcall" and y.get("name") in ("skip", "take", "filter", "step_by", "take_while", "skip_while", "rev")]
+            c_add = mvt.exit_counts(P, {"body": lps[0]["body"]}, lambda y: 1 if (y.get("k") == "mcall" and (ir.callee(y) or "").endswith("TileServer::add_tile_source")) else None)
+            esc = [y["k"] for y in ir.walk_nodes(lps[0]["body"]) if y.get("k") in ("break", "continue") and "m" not in y]
+            okr = over_args and not adapt and c_add == {1} and not esc
+        ck.check(okr and c_start == {1}, "R-WIRING", rn[0]["q"], "every tile source argument is added to the server once and the server is started once on every successful path",
+                 "serve does not add every tile source argument and start the server (per-argument adds ok=%s, starts %s)" % (okr, sorted(c_start)), ir.loc(rn[0]))
     b = app[0]
     lp = [n for n in ir.walk_nodes(b["body"]) if n.get("k") == "for" and ir.place_str(n["iter"]).startswith("self.tile_sources")]
     okl = False
